@@ -235,7 +235,18 @@ func storeCrash(c *harness.Ctx, i int) {
 		err = a.Wait()
 	case "full-fs":
 		cmd := mk(cliPlain, "")
+		// sometimes the shortage is transient: a ballast file takes most of the room and is removed a little later, so
+		// that a write that was cut short is followed by writes that succeed (the CLI retries store operations)
+		ballast := filepath.Join(store, "ballast")
+		if rng.Intn(2) == 0 {
+			os.WriteFile(ballast, make([]byte, 4096*(k-1)+100+rng.Intn(3000)), 0644)
+			go func(d time.Duration) {
+				time.Sleep(d)
+				os.Remove(ballast)
+			}(time.Duration(1+rng.Intn(30)) * time.Millisecond)
+		}
 		err = cmd.Run()
+		os.Remove(ballast)
 		childDied = false
 		if err != nil {
 			c.Count("writers_failed_on_full_fs", 1)
@@ -440,7 +451,7 @@ func extractCrash(c *harness.Ctx, i int) {
 	inPlace := rng.Intn(2) == 0
 	n := []int{1, 4, 10}[rng.Intn(3)]
 	k := int64(1 + rng.Intn(len(idx.Chunks)))
-	destKind := []string{"absent", "old"}[rng.Intn(2)]
+	destKind := []string{"absent", "old", "old", "symlink"}[rng.Intn(4)]
 	store := dsu.NewMemStore("s")
 	for _, ch := range idx.Chunks {
 		store.PutRaw(ch.ID, blob[ch.Start:ch.Start+ch.Size])
@@ -486,11 +497,18 @@ func extractCrash(c *harness.Ctx, i int) {
 	}
 	dest := filepath.Join(dir, destName)
 	old := []byte("old content\n")
+	behind := filepath.Join(dir, "behind-the-link")
 	if destKind == "old" {
 		if inPlace {
 			old = dsu.MakeBlob(rng, "random", len(blob)/2, sz) // in-place over garbage
 		}
 		dsu.WriteFile(dest, old)
+	}
+	if destKind == "symlink" {
+		// the destination is a symlink to a regular file holding the previous version
+		inPlace = false
+		dsu.WriteFile(behind, old)
+		os.Symlink(behind, dest)
 	}
 	c.Info("extract-crash inplace=%v n=%d kill-at-request=%d chunks=%d dest=%s name-length=%d", inPlace, n, k, len(idx.Chunks), destKind, len(destName))
 	c.LogInfo()
@@ -530,6 +548,13 @@ func extractCrash(c *harness.Ctx, i int) {
 		case "old":
 			if rerr != nil || !bytes.Equal(got, old) {
 				c.Violation("dest-touched:old", "extract (temp-file mode) was killed at chunk request %d and the destination changed (%d bytes, err %v)", k, len(got), rerr)
+				return
+			}
+		case "symlink":
+			t, lerr := os.Readlink(dest)
+			b, _ := os.ReadFile(behind)
+			if lerr != nil || t != behind || !bytes.Equal(b, old) {
+				c.Violation("dest-touched:symlink", "extract (temp-file mode) was killed at chunk request %d: the destination link or the file behind it changed (link: %v %q, %d bytes behind it, %d before)", k, lerr, t, len(b), len(old))
 				return
 			}
 		}
